@@ -33,6 +33,12 @@ var zzPerms3 = [][]int{{0, 1, 2}, {0, 2, 1}, {1, 0, 2}, {1, 2, 0}, {2, 0, 1}, {2
 // Not decided here (outside the engine's reach, see DESIGN): that kyber's protocol produces such an outcome.
 func ZZ_C06_groupAgreement() {
 	w := zzNewWorld(4)
+	// which of the four keys belongs to the joiner (identity 3) is symbolic: its place in the canonical (by key)
+	// order relative to the remaining members matters
+	if rot := zz.Choose("world.rotation", 4); rot > 0 {
+		w.pairs = append(append([]*key.Pair{}, w.pairs[rot:]...), w.pairs[:rot]...)
+		w.parts = append(append([]*drand.Participant{}, w.parts[rot:]...), w.parts[:rot]...)
+	}
 	now := time.Now()
 	period := time.Duration(zz.Param("period_s", 2)) * time.Second
 	hasPrev := zz.Param("first_epoch", 0) == 0
